@@ -164,6 +164,7 @@ type hijackWatch struct {
 	sync.Mutex
 	source  watch.Interface
 	result  chan watch.Event
+	done    chan struct{}
 	stopped bool
 }
 
@@ -171,6 +172,7 @@ func newHijackWatch(source watch.Interface) watch.Interface {
 	w := &hijackWatch{
 		source: source,
 		result: make(chan watch.Event),
+		done:   make(chan struct{}),
 	}
 	go w.receive()
 	return w
@@ -181,6 +183,7 @@ func (w *hijackWatch) Stop() {
 	defer w.Unlock()
 	if !w.stopped {
 		w.stopped = true
+		close(w.done)
 		w.source.Stop()
 	}
 }
@@ -191,21 +194,28 @@ func (w *hijackWatch) receive() {
 	defer utilruntime.HandleCrash()
 	for {
 		select {
+		case <-w.done:
+			return
 		case event, ok := <-w.source.ResultChan():
 			if !ok {
 				return
 			}
-			asts, ok := event.Object.(*asv1.StatefulSet)
-			if !ok {
-				panic("unreachable")
+			// events that do not carry a StatefulSet (error statuses) are relayed as they are
+			if asts, ok := event.Object.(*asv1.StatefulSet); ok {
+				sts, err := ToBuiltinStatefulSet(asts)
+				if err != nil {
+					panic(err)
+				}
+				event = watch.Event{
+					Type:   event.Type,
+					Object: sts,
+				}
 			}
-			sts, err := ToBuiltinStatefulSet(asts)
-			if err != nil {
-				panic(err)
-			}
-			w.result <- watch.Event{
-				Type:   event.Type,
-				Object: sts,
+			// do not block for ever on a consumer that stopped the watch and no longer receives
+			select {
+			case w.result <- event:
+			case <-w.done:
+				return
 			}
 		}
 	}
